@@ -672,7 +672,7 @@ public:
         else
         {
 	  // exponent is zero, so result is "1"
-          if(tmpInt == 0) r.scalarString() = "(1)";
+          if(tmpInt == 0) r.scalarString() = "(1.0)";
           else
           {
             // exponent b is negative, so compute 1/(a^(-b))
